@@ -1109,6 +1109,16 @@ pub fn generate(rng: &mut Rng, cfg: &GenCfg) -> ModuleSet {
                         // objects of an imported class, with names that sort far apart (so that
                         // definitions of other modules sort between them)
                         let lo = p.stem.to_lowercase().trim_end_matches('-').to_string();
+                        let mine = p.stem.trim_end_matches('-').to_string();
+                        if sym.ends_with("TagBase") {
+                            let n = format!("{mine}With{}", sym.trim_end_matches("TagBase"));
+                            assigns.push(Assign { name: n.clone(), kind: AKind::Type, text: format!("{n} ::= SEQUENCE {{ COMPONENTS OF {sym}, own [7] BOOLEAN }}"), refs: vec![sym.clone()], comment: String::new() });
+                        }
+                        if sym.ends_with("TagWrap{}") {
+                            let t = sym.trim_end_matches("{}");
+                            let n = format!("{mine}Wrapped{}", t.trim_end_matches("TagWrap"));
+                            assigns.push(Assign { name: n.clone(), kind: AKind::Type, text: format!("{n} ::= {t} {{ {} }}", ["BOOLEAN", "UTF8String", "INTEGER (0..7)"][g.rng.below(3)]), refs: vec![t.to_string()], comment: String::new() });
+                        }
                         let field = if sym.ends_with("-OPS") { Some("CODE") } else if sym.ends_with("-CLASS") { Some("ID") } else { None };
                         if let Some(field) = field {
                             if g.rng.chance(2, 3) {
@@ -1156,19 +1166,42 @@ pub fn generate(rng: &mut Rng, cfg: &GenCfg) -> ModuleSet {
                 });
             }
             if g.rng.chance(1, 3) {
+                // a SEQUENCE and a template whose members carry tags WITHOUT a keyword (this module's
+                // tagging default decides what they mean); importers inherit the members with
+                // COMPONENTS OF and instantiate the template under THEIR default
+                let st = p.stem.trim_end_matches('-').to_string();
+                assigns.push(Assign { name: format!("{st}TagBase"), kind: AKind::Type, text: format!("{st}TagBase ::= SEQUENCE {{ first [0] INTEGER, second [1] BOOLEAN OPTIONAL, third [APPLICATION {}] UTF8String }}", 1 + g.rng.below(30)), refs: vec![], comment: String::new() });
+                assigns.push(Assign { name: format!("{st}TagWrap"), kind: AKind::Param, text: format!("{st}TagWrap {{Payload}} ::= SEQUENCE {{ payload [0] Payload, serial [1] INTEGER (0..65535) }}"), refs: vec![], comment: String::new() });
+            }
+            if g.rng.chance(1, 3) {
                 let pname = format!("{}Box", p.stem.trim_end_matches('-'));
                 // the dummy reference is a name of the template's own: half of the time it is
                 // spelled like a top-level type of ANOTHER module (which this module does not
                 // import and which has nothing to do with the template)
                 let others: Vec<&String> = pres.iter().enumerate().filter(|(j, _)| *j != mi).flat_map(|(_, q)| q.type_names.iter()).filter(|n| !p.type_names.contains(n)).collect();
                 let dummy = if !others.is_empty() && g.rng.chance(1, 2) { others[g.rng.below(others.len())].clone() } else { "ElementType".to_string() };
+                // a third of the templates carry a tag of their own in front of the type (the
+                // instances below have none)
+                let ttag = match g.rng.below(6) {
+                    0 => format!("[APPLICATION {}] ", 1 + g.rng.below(30)),
+                    1 => format!("[PRIVATE {}] IMPLICIT ", 1 + g.rng.below(30)),
+                    _ => String::new(),
+                };
                 assigns.push(Assign {
                     name: pname.clone(),
                     kind: AKind::Param,
-                    text: format!("{pname} {{{dummy}}} ::= SEQUENCE {{ content {dummy}, count INTEGER (0..7) }}"),
+                    text: format!("{pname} {{{dummy}}} ::= {ttag}SEQUENCE {{ content {dummy}, count INTEGER (0..7) }}"),
                     refs: vec![],
                     comment: String::new(),
                 });
+                if g.rng.chance(1, 3) {
+                    // a template with a VALUE parameter, tagged or not, and an instance of it
+                    let bname = format!("{}Bounded", p.stem.trim_end_matches('-'));
+                    let btag = if g.rng.chance(1, 2) { format!("[PRIVATE {}] ", 1 + g.rng.below(30)) } else { String::new() };
+                    assigns.push(Assign { name: bname.clone(), kind: AKind::Param, text: format!("{bname} {{INTEGER: upper}} ::= {btag}INTEGER (0..upper)"), refs: vec![], comment: String::new() });
+                    let sname = format!("{}Small", p.stem.trim_end_matches('-'));
+                    assigns.push(Assign { name: sname.clone(), kind: AKind::Type, text: format!("{sname} ::= {bname} {{{}}}", [7u32, 255, 1000][g.rng.below(3)]), refs: vec![bname.clone()], comment: String::new() });
+                }
                 if g.rng.chance(2, 3) {
                     // and an instance of it
                     let iname = format!("{}BoxOfInt", p.stem.trim_end_matches('-'));
@@ -1251,6 +1284,7 @@ pub fn generate(rng: &mut Rng, cfg: &GenCfg) -> ModuleSet {
             .filter_map(|a| match a.kind {
                 AKind::Class => Some(a.name.clone()),
                 AKind::Param => Some(format!("{}{{}}", a.name)),
+                AKind::Type if a.name.ends_with("TagBase") => Some(a.name.clone()),
                 _ => None,
             })
             .collect();
@@ -1258,7 +1292,19 @@ pub fn generate(rng: &mut Rng, cfg: &GenCfg) -> ModuleSet {
         let has_oid = g.rng.chance(2, 3);
         modules.push(Module {
             name: p.name.clone(),
-            oid: if has_oid { Some(oid_for(mi)) } else { None },
+            oid: if has_oid {
+                // a quarter of the identifiers EXTEND the identifier of an earlier module by one arc
+                // (a "family" of modules); the others are siblings under one arc
+                let parents: Vec<String> = modules.iter().filter_map(|m: &Module| m.oid.clone()).collect();
+                if !parents.is_empty() && g.rng.chance(1, 4) {
+                    let par = parents[g.rng.below(parents.len())].trim_end_matches('}').trim_end().to_string();
+                    Some(format!("{par} part{mi}({}) }}", 1 + mi))
+                } else {
+                    Some(oid_for(mi))
+                }
+            } else {
+                None
+            },
             tags: g.rng.pick(&["EXPLICIT", "IMPLICIT", "AUTOMATIC", ""]).to_string(),
             ext_implied: g.rng.chance(1, 3),
             exports_all: g.rng.chance(1, 3),
